@@ -242,8 +242,8 @@ func (c *Cmd) Wait() error {
 	if c.parentStdout != nil {
 		c.parentStdout.CloseQuiet()
 	}
-	if c.Process.Status != 0 {
-		return &ExitError{Status: c.Process.Status}
+	if st := c.Process.ExitStatus(); st != 0 {
+		return &ExitError{Status: st}
 	}
 	return nil
 }
